@@ -91,6 +91,8 @@ def gen_spec(rng, tier="quick", for_crash=False):
         lab["maxPos"] = rng.choice([None, 360, 260, 200, 120, 60, 960])
     if rng.random() < 0.2:
         lab["minPos"] = rng.choice([0, None, 10, -20])
+    if rng.random() < 0.06:     # equal bounds: a zero-width layer
+        lab["maxPos"] = lab.get("minPos", 0) if lab.get("minPos", 0) is not None else 0
     if rng.random() < 0.4:
         lab["algorithm"] = rng.choice(["overlap", "simple", "none"])
     if rng.random() < 0.2:
